@@ -31,6 +31,12 @@
        sel a=<arg kind> alts=<alternative kinds> how=ctor|assign     answer: the index of the alternative held afterwards, or `nc`
        kinds: b bool, h char, s short, i int, l long, u unsigned, f float, d double, p char const*, P int*, v void const*,
        n nullptr_t, L string literal, e unscoped enum (: int), E scoped enum, T Text(char const*), N Num(int), I ToInt (operator int)
+   new kind=mv                                      visit over arguments of different variant types (no state)
+       mvis k=[K,..] act=[A,..] v=[N,..] q=[Q,..] [idx=1]   one to four arguments; K: 0 a non-variant int, 1..4 a variant with that
+                                       many alternatives (long | int,Trk | Trk,float,int | float,int,long,Trk); A the active
+                                       index, N the payload, Q the value category (0 T&, 1 T const&, 2 T&&, 3 T const&&);
+                                       answer `calls=1 ret=1 [I=]Q:<value>,...`: per argument the reference kind, the static
+                                       type and the value the visitor received (idx=1: visit_with_index, with the static index)
    every answer is followed by ` |` and the state of all slots.
 
    values: i int, l long, s short (payload = value); f float (payload p = p/2, 1000 = NaN); t Trk, m Mo
@@ -872,6 +878,56 @@ def stepSel (l : Line) : Option String :=
     | _, _, _ => none
   | _ => none
 
+/-! ### `new kind=mv`: visit over arguments of DIFFERENT variant types (no state) -/
+
+/-- alternative types of the argument kinds of `mvis`: 0 = a non-variant `int` (`variant_size` 1, `index` 0, `get<0>` hands
+    the argument on), k = 1..4 = `variant<long>`, `variant<int,Trk>`, `variant<Trk,float,int>`, `variant<float,int,long,Trk>` -/
+def mvTys : Nat → Option (List Ty)
+  | 0 => some [.int]
+  | 1 => some [.lng]
+  | 2 => some [.int, .trk]
+  | 3 => some [.trk, .flt, .int]
+  | 4 => some [.flt, .int, .lng, .trk]
+  | _ => none
+
+/-- the (kinds, categories) combinations the harness compiles (harness/c07.cpp mv_ok2 / mv_ok3; checks/props/c07.py mv_lines) -/
+def mvOK (ks qs : List Nat) : Bool :=
+  ks.length == qs.length && ks.all (· ≤ 4) && qs.all (· ≤ 3) &&
+  match ks, qs with
+  | [_], [_] => true
+  | [k0, k1], [q0, q1] =>
+    (k0 == 3 && k1 == 2) || (k0 == 2 && k1 == 3) || q0 == q1 || (q0 == 0 && q1 == 2) || (q0 == 3 && q1 == 1)
+  | [k0, k1, k2], q =>
+    (q == [1, 1, 1] || q == [2, 0, 3]) &&
+    (let z := [k0, k1, k2].count 0
+     (z == 0 && [k0, k1, k2].all (fun k => 1 ≤ k && k ≤ 3)) || (z == 1 && [k0, k1, k2].all (fun k => k == 0 || k == 2 || k == 3)))
+  | k, q => (k == [3, 2, 2, 3] || k == [2, 2, 3, 3]) && q == [0, 1, 2, 3]
+
+/-- model = `Model.visitN` (the `next_seq` recursion over `index_sequence<variant_size<Vs>()...>`, every `get<I>` behind the
+    `I == index()` check), spec = [variant.visit] (`Spec.visitN`: the active alternative of every argument); equal by
+    `Props.visitN_active`.  The reference kind each argument arrives as is the forwarding table of the standard (category in =
+    category out): observed, not proved. -/
+def stepMv (l : Line) : Option String :=
+  match l.op with
+  | "mvis" =>
+    match l.natList? "k", l.natList? "act", l.natList? "v", l.natList? "q" with
+    | some ks, some acts, some vals, some qs =>
+      if !(mvOK ks qs) || acts.length != ks.length || vals.length != ks.length then none else
+      let withIdx := (l.nat? "idx").getD 0 != 0
+      let mk1 (k : Nat) (a : Nat) (n : Nat) : Option (Nat × V Val) :=
+        (mvTys k).bind fun tys => (tys[a]?).map fun t => (tys.length, ⟨a, mkV t (Int.ofNat n)⟩)
+      match ((ks.zip acts).zip vals).mapM (fun ((k, a), n) => mk1 k a n) with
+      | none => none
+      | some vs =>
+        let item (q : Nat) (p : Nat × Val) : String := (if withIdx then s!"{p.1}=" else "") ++ s!"{q}:" ++ showV p.2 ++ ","
+        let fmt (ps : List (Nat × Val)) : String := "calls=1 ret=1 " ++ String.join ((qs.zip ps).map fun (q, p) => item q p) ++ " |"
+        let m := match visitN vs with
+          | .ok ps => fmt ps
+          | .error e => e.fmt
+        some (m ++ "\t" ++ fmt (Spec.visitN (vs.map (·.2))))
+    | _, _, _, _ => none
+  | _ => none
+
 def newLive (l : Line) : Option Live :=
   match l.str? "kind" with
   | some kind =>
@@ -905,6 +961,7 @@ def newLive (l : Line) : Option Live :=
         some { base with mr := List.replicate n none, sr := List.replicate n none,
                          mcells := [10, 20, 30], scells := [10, 20, 30] }
       | "sel" => some base
+      | "mv" => some base
       | _ => none
   | none => none
 
@@ -914,7 +971,7 @@ def step (st : DState) (l : Line) : DState × String :=
     match newLive l with
     | none => (none, "bad-op\tbad-op")
     | some lv =>
-      if lv.kind == "sel" then (some lv, "ok |\tok |")
+      if lv.kind == "sel" || lv.kind == "mv" then (some lv, "ok |\tok |")
       else if lv.kind == "oref" then
         (some lv, "ok |" ++ fmtRef lv.mr lv.mcells ++ "\tok |" ++ fmtRef lv.sr lv.scells)
       else
@@ -926,6 +983,7 @@ def step (st : DState) (l : Line) : DState × String :=
     | none => bad
     | some lv =>
       if lv.kind == "sel" then (match stepSel l with | some r => (st, r) | none => bad)
+      else if lv.kind == "mv" then (match stepMv l with | some r => (st, r) | none => bad)
       else if lv.kind == "oref" then (stepRef lv l).getD bad
       else
         match lv.m with
